@@ -134,6 +134,12 @@ def judge(case):
             expect = ''.join(x + '\n' for x in ([header] if header else []) + blk.lines)
             if str(blk) != expect:
                 bad('textblock-header-indented', f'str={str(blk)!r} expected={expect!r}')
+            # repeated indentation of the same block: a plain indent() keeps using the configured indentor
+            once = list(blk.lines)
+            blk.indent()
+            err = spec_ok(once, blk.lines, cfg)
+            if err:
+                bad('textblock-indent-twice', f'{how} header={header!r}: second plain indent(): {err}')
         # default indentor of a TextBlock = 4 spaces (documented module default)
         blk = TextBlock(list(lines)).indent()
         err = spec_ok(lines, blk.lines, {'indentor': 'SPACES', 'count': 4, 'mode': None,
